@@ -144,22 +144,12 @@ class MinSumLDPCDecoder(BeliefPropagationDecoder):
                 signs = torch.sign(vc_group_messages)
                 magnitudes = torch.abs(vc_group_messages)
 
-                # 2. Compute output signs (XOR of input signs)
-                sign_product = torch.prod(signs, dim=2, keepdim=True)
-                output_signs = sign_product * signs  # Extrinsic sign
+                # 2. Output sign: product of the signs of the other edges of the check
+                #    (vc_group_messages[b, e, :] already holds only the extrinsic inputs of edge e)
+                output_signs = torch.prod(signs, dim=2)
 
-                # 3. Compute output magnitudes (min of input magnitudes)
-                # For each output, take min over all other inputs (extrinsic minimum)
-                min_magnitudes = torch.zeros_like(vc_group_messages)
-                for i in range(vc_group_messages.size(2)):
-                    # Create mask to exclude current position
-                    mask = torch.ones_like(vc_group_messages, dtype=torch.bool)
-                    mask[:, :, i] = False
-
-                    # Find minimum over other positions
-                    other_magnitudes = magnitudes.masked_select(mask).view(batch_size, deg * members, -1)
-                    min_vals, _ = torch.min(other_magnitudes, dim=2)
-                    min_magnitudes[:, :, i] = min_vals
+                # 3. Output magnitude: minimum magnitude over the other edges of the check
+                min_magnitudes = torch.min(magnitudes, dim=2).values
 
                 # 4. Combine signs and magnitudes
                 v_messages = output_signs * min_magnitudes
@@ -168,7 +158,7 @@ class MinSumLDPCDecoder(BeliefPropagationDecoder):
                 if self.scaling_factor != 1.0:
                     v_messages = v_messages * self.scaling_factor
                 if self.offset != 0.0:
-                    v_messages = v_messages - torch.sign(v_messages) * self.offset
+                    v_messages = torch.sign(v_messages) * torch.clamp(torch.abs(v_messages) - self.offset, min=0.0)
 
                 # Reshape to match expected output
                 v_messages = v_messages.view(batch_size, -1)
